@@ -9,7 +9,7 @@ from values import canon
 import ocf
 
 PROP = 'C14'
-THEOREMS = ['C14_cut_anywhere', 'C14_whole_file', 'C14_marker_corruption', 'C14_header_cut', 'C14_example']
+THEOREMS = ['C14_cut_anywhere', 'C14_whole_file', 'C14_marker_corruption', 'C14_header_cut', 'C14_iterator_latches', 'C14_example']
 CFG = '(cfg 536870912 56 80)'
 RULE = ('files written by the library: 3-5 blocks x codecs {null,deflate,snappy,bzip2,xz,zstandard} x per-block '
         'counts {3,100,200} x item schemas {null, long, record}; exhaustive over cut offsets (every byte) and '
